@@ -159,8 +159,8 @@ def tree(draw, tier):
 
 def parts(tier):
     return [
-        Part("adversarial", strategy=lambda t: adversarial(t), check=check_sound, quick=(6, 400), thorough=(12, 8000), fuzz=(2, 60000)),
-        Part("tree", strategy=lambda t: tree(t), check=check_complete, quick=(1, 300), thorough=(2, 4000)),
+        Part("adversarial", strategy=lambda t: adversarial(t), check=check_sound, quick=(6, 800), thorough=(12, 8000), fuzz=(2, 60000)),
+        Part("tree", strategy=lambda t: tree(t), check=check_complete, quick=(1, 600), thorough=(2, 4000)),
         Part("sharing", strategy=lambda t: S.model_spec(depth=3 if t == "quick" else 4, profile="small").map(lambda s: {"model": s}),
-             check=check_complete, quick=(2, 300), thorough=(4, 4000)),
+             check=check_complete, quick=(2, 600), thorough=(4, 4000)),
     ]
